@@ -155,6 +155,10 @@ package html
 // remembered - and looked up - per document AND visibility
 //@   oncall sync.Map.Load check remembered-per-document-and-visibility: arg1.document == document && arg1.visibility == visibility
 //@   oncall sync.Map.Store check remembered-per-document-and-visibility: arg1.document == document && arg1.visibility == visibility
+// C14 (checked with this C17 contract, reported by the C17 check): the pages of
+// the surnames take the first letter of every surname in the set, so the empty
+// surname (a NAME without /surname/) never gets into it
+//@   oncall StringSet.Add check never-the-empty-surname: len(arg1) == 1 && len(arg1[0]) > 0
 //@   requires valid: visibility == LivingVisibilityShow || visibility == LivingVisibilityHide || visibility == LivingVisibilityPlaceholder
 //@   deepcall IndividualNode.Name check name-cleared: arg0 == nil || !livingOf(arg0) || visibility == LivingVisibilityShow
 //@   deepcall IndividualNode.Names check name-cleared: arg0 == nil || !livingOf(arg0) || visibility == LivingVisibilityShow
